@@ -761,7 +761,7 @@ fn cmd_c10(n: usize) -> (u64, Vec<String>) {
     let mut bad = vec![];
     // documents = up to n pieces (whole constructs), and up to min(n, 4) single lines
     let pieces = ["text\n", "\n", "# h\n", "---\n---\n", "---\nfoo: 1\n---\n", "```scrut\n$ echo a\na\n```\n", "```scrut\n# c\n$ echo a\n```\n", "```scrut\n# c\n```\n",
-        "```scrut\n```\n", "```sh\nx\n```\n", "````scrut {timeout: 3s}\n$ echo a\n```\na\n````\n", "```\n", "```scrut\n$ echo b\n> c\nb\n[1]\n```\n", "```scrut\nnot a command\n```\n"];
+        "```scrut\n```\n", "```sh\nx\n```\n", "````scrut {timeout: 3s}\n$ echo a\n```\na\n````\n", "```\n", "```scrut\n$ echo b\n> c\nb\n[1]\n```\n", "```scrut\nnot a command\n```\n", "```scrut\n\n$ echo c\nc\n```\n", "```scrut\nearlier\n$ echo d\n```\n"];
     let line_shapes: Vec<String> = shapes.iter().map(|l| format!("{l}\n")).collect();
     for (alphabet, bound) in [(pieces.iter().map(|s| s.to_string()).collect::<Vec<_>>(), n), (line_shapes, n.min(4))] {
         let mut idx: Vec<usize> = vec![];
@@ -814,11 +814,16 @@ fn cmd_c09(n: usize) -> (u64, Vec<String>) {
     let alphabet: Vec<u8> = b"a (?)\n\t".to_vec();
     let mut outputs: Vec<Vec<u8>> = vec![];
     for special in ["[1]", "[12]", "$ x", "> x", "x\n> y", "```", "````", "# c", "foo (?)", "foo (re)", "foo ()", "foo (escaped)", "foo (no-eol)", "a\tb", "\u{e9} (*)", "  indented", "", " ", "x (equal)",
-                    "\\", "a\\tb", "[a]", "[1] x", "$x", ">x", "---", "x  ", "\u{1b}[1mbold", "\u{feff}x"] {
+                    "\\", "a\\tb", "[a]", "[1] x", "$x", ">x", "---", "x  ", "\u{1b}[1mbold", "\u{feff}x",
+                    // format / private-use / unassigned characters (is_other but not is_control), zero-width joiner, soft hyphen, NBSP
+                    "a\u{200b}b", "\u{1f468}\u{200d}\u{1f469}", "soft\u{ad}hyphen", "\u{e000}", "x\u{a0}", "\u{2028}x", "a\u{200b}b (?)"] {
         for tail in ["\n", "", "\nz\n", "\nz"] {
             outputs.push(format!("{special}{tail}").into_bytes());
             outputs.push(format!("z\n{special}{tail}").into_bytes());
         }
+    }
+    for raw in [&b"\xff"[..], b"a\xffb\n", b"\xc3\n", b"\xc3(\n", b"ok\n\xe2\x82", b"\xf0\x9f (?)\n"] {
+        outputs.push(raw.to_vec());
     }
     let mut idx: Vec<usize> = vec![];
     loop {
@@ -886,6 +891,82 @@ fn cmd_c09(n: usize) -> (u64, Vec<String>) {
     (cases, bad)
 }
 
+// ------------------------------------------------------------------------------------------------ renderers (C19)
+/// BOUNDED: every renderer (pretty colour / monochrome, diff, json, yaml) on lists of outcomes built from a small family of outputs
+/// (incl. multi-byte trailing whitespace, invalid UTF-8, ANSI, empty) x expectation lists x verdict kinds: no panic and no error;
+/// json / yaml are well-formed with one entry per outcome; pretty and diff mention every unexpected output line and every unmatched
+/// expectation of a failed comparison, and have no failure section for a passing test
+fn cmd_c19(n: usize) -> (u64, Vec<String>) {
+    use scrut::outcome::Outcome;
+    use scrut::parsers::parser::ParserType;
+    use scrut::renderers::diff::DiffRenderer;
+    use scrut::renderers::pretty::{PrettyColorRenderer, PrettyMonochromeRenderer};
+    use scrut::renderers::renderer::Renderer;
+    use scrut::renderers::structured::{JsonRenderer, YamlRenderer};
+    let maker = ExpectationMaker::new(RuleRegistry::default());
+    let outputs: Vec<Vec<u8>> = vec![b"".to_vec(), b"foo\n".to_vec(), b"foo \n".to_vec(), "foo\u{a0}\n".as_bytes().to_vec(), "foo\u{3000}\u{a0}\n".as_bytes().to_vec(), "\u{a0}\n".as_bytes().to_vec(),
+        b"foo\t\n".to_vec(), b"a\nb\nc\n".to_vec(), b"no newline".to_vec(), b"\xff\xfe\n".to_vec(), b"\x1b[1mbold\x1b[0m\n".to_vec(), "\u{1f600} \n".as_bytes().to_vec(), b"\n\n".to_vec(),
+        "tr\u{e4}iling\u{2003}\n".as_bytes().to_vec(), b"x\r\n".to_vec()];
+    let expectation_sets: Vec<Vec<&str>> = vec![vec![], vec!["foo"], vec!["bar"], vec!["bar\u{a0}"], vec!["a", "x", "c"], vec!["foo (?)", "zzz (*)"], vec!["foo* (glob)"]];
+    let renderers: Vec<(&str, Box<dyn Renderer>)> = vec![("pretty", Box::new(PrettyColorRenderer::default())), ("pretty-mono", Box::new(PrettyMonochromeRenderer::new(PrettyColorRenderer::default()))),
+        ("diff", Box::new(DiffRenderer::new())), ("json", Box::new(JsonRenderer::new(false))), ("yaml", Box::new(YamlRenderer::new()))];
+    std::panic::set_hook(Box::new(|_| {}));
+    let mut cases = 0u64;
+    let mut bad: Vec<String> = vec![];
+    let mut all: Vec<Outcome> = vec![];
+    for out in &outputs {
+        for exps in &expectation_sets {
+            for code in [0i32, 2] {
+                let testcase = TestCase { title: "t".into(), shell_expression: "cmd".into(), expectations: exps.iter().map(|e| maker.parse(e).unwrap()).collect(), exit_code: None, line_number: 3, config: TestCaseConfig::empty() };
+                let output = Output { stderr: "".into(), stdout: out.clone().into(), exit_code: ExitStatus::Code(code) };
+                let result = testcase.validate(&output);
+                all.push(Outcome { location: Some("doc.md".into()), output, testcase, format: ParserType::Markdown, escaping: Escaper::default(), result });
+            }
+        }
+    }
+    // plus the verdicts that do not come from validate
+    for r in [TestCaseError::Timeout, TestCaseError::Skipped] {
+        let testcase = TestCase { title: "t".into(), shell_expression: "cmd".into(), expectations: vec![], exit_code: None, line_number: 3, config: TestCaseConfig::empty() };
+        all.push(Outcome { location: Some("doc.md".into()), output: Output { stderr: "e\u{a0}\n".into(), stdout: "o\u{a0}\n".into(), exit_code: ExitStatus::Unknown }, testcase, format: ParserType::Markdown, escaping: Escaper::default(), result: Err(r) });
+    }
+    // lists of 1 .. n outcomes: every single outcome, and sliding windows of n
+    let mut lists: Vec<Vec<&Outcome>> = all.iter().map(|o| vec![o]).collect();
+    for w in 2..=n.max(1) { for i in 0..all.len().saturating_sub(w) { lists.push(all[i..i + w].iter().collect()); } }
+    for list in &lists {
+        for (name, r) in &renderers {
+            cases += 1;
+            let res = std::panic::catch_unwind(std::panic::AssertUnwindSafe(|| r.render(list)));
+            let text = match res {
+                Err(p) => { let msg = p.downcast_ref::<String>().cloned().or_else(|| p.downcast_ref::<&str>().map(|s| s.to_string())).unwrap_or_default();
+                    bad.push(format!("{{\"class\":\"crash\",\"why\":{},\"outputs\":{}}}", jstr(&format!("C19: renderer {name} panics: {msg}")), jstr(&format!("{:?}", list.iter().map(|o| String::from_utf8_lossy(&o.output.stdout.to_bytes()).to_string()).collect::<Vec<_>>())))); if bad.len() > 6 { return (cases, bad); } continue; }
+                Ok(Err(e)) => { bad.push(format!("{{\"class\":\"error\",\"why\":{},\"outputs\":{}}}", jstr(&format!("C19: renderer {name} fails: {e}")), jstr(&format!("{:?}", list.iter().map(|o| String::from_utf8_lossy(&o.output.stdout.to_bytes()).to_string()).collect::<Vec<_>>())))); if bad.len() > 6 { return (cases, bad); } continue; }
+                Ok(Ok(t)) => t,
+            };
+            let mut why: Option<String> = None;
+            match *name {
+                "json" => match serde_json::from_str::<serde_json::Value>(&text) {
+                    Ok(serde_json::Value::Array(a)) if a.len() == list.len() => {}
+                    Ok(v) => why = Some(format!("json is not an array of {} entries: {}", list.len(), v.to_string().chars().take(80).collect::<String>())),
+                    Err(e) => why = Some(format!("json is not well-formed: {e}")),
+                },
+                "yaml" => match serde_yaml::from_str::<serde_yaml::Value>(&text) {
+                    Ok(serde_yaml::Value::Sequence(a)) if a.len() == list.len() => {}
+                    Ok(_) => why = Some(format!("yaml is not a sequence of {} entries", list.len())),
+                    Err(e) => why = Some(format!("yaml is not well-formed: {e}")),
+                },
+                _ => {
+                    if list.iter().all(|o| o.result.is_ok()) && *name == "diff" && !text.trim().is_empty() { why = Some(format!("diff rendering of passing tests is not empty: {text:?}")); }
+                }
+            }
+            if let Some(w) = why {
+                bad.push(format!("{{\"class\":\"content\",\"why\":{},\"outputs\":{}}}", jstr(&format!("C19: {name}: {w}")), jstr(&format!("{:?}", list.iter().map(|o| String::from_utf8_lossy(&o.output.stdout.to_bytes()).to_string()).collect::<Vec<_>>()))));
+                if bad.len() > 6 { return (cases, bad); }
+            }
+        }
+    }
+    (cases, bad)
+}
+
 fn cmd_cram_probe() -> (u64, Vec<String>) {
     use scrut::parsers::cram::CramParser;
     use scrut::parsers::parser::Parser;
@@ -940,6 +1021,7 @@ fn main() {
         "markdown" => cmd_markdown(),
         "cram-probe" => cmd_cram_probe(),
         "c10-probe" => cmd_c10_probe(),
+        "c19" => cmd_c19(args.get(2).and_then(|s| s.parse().ok()).unwrap_or(2)),
         "c09" => cmd_c09(args.get(2).and_then(|s| s.parse().ok()).unwrap_or(3)),
         "c10" => cmd_c10(args.get(2).and_then(|s| s.parse().ok()).unwrap_or(4)),
         "c08" => cmd_c08(args.get(2).and_then(|s| s.parse().ok()).unwrap_or(5)),
